@@ -309,10 +309,9 @@ def real_pow(base, exp):
 
 
 def real_sqrt(x):
-    y = SQRT(x)
-    if Explorer.current is not None:
-        Explorer.current.assume(z3.Implies(x >= 0, z3.And(y >= 0, y * y == x)))
-    return y
+    # the defining axiom instances (x >= 0 => sqrt(x) >= 0 and sqrt(x)^2 = x) are added per obligation, for the
+    # sqrt terms that actually occur in it after beta-reduction (driver.prove / sqrt_axioms)
+    return SQRT(x)
 
 
 class SymInt(Sym):
@@ -666,3 +665,19 @@ def model_value(m, x):
         except Exception:
             return s
     return str(v)
+
+
+def sqrt_axioms(*formulas):
+    """Axiom instances for every sqrt(x) subterm of the (simplified) formulas."""
+    seen, args, stack = set(), {}, [z3.simplify(f) for f in formulas]
+    while stack:
+        t = stack.pop()
+        if t.get_id() in seen:
+            continue
+        seen.add(t.get_id())
+        if z3.is_quantifier(t):
+            continue  # instances under binders are not ground
+        if z3.is_app(t) and t.decl().name() == "sqrt" and t.num_args() == 1:
+            args[t.arg(0).get_id()] = t.arg(0)
+        stack.extend(t.children())
+    return [z3.Implies(x >= 0, z3.And(SQRT(x) >= 0, SQRT(x) * SQRT(x) == x)) for x in args.values()]
